@@ -37,8 +37,8 @@ P = {
  "C10": ("Coq proof: proto_safe — no cell of a live version's tree is ever freed, for every sequence of valid protocol actions (Proto.v, std++); tie: model-free heap-dump invariant after every step + contents after forced reuse",
          "Invariant over arbitrary action sequences covers every order of acquire/release; implementation checked after every step for freed-but-reachable nodes and stale marks, with unrelated allocation forcing reuse.",
          "Protocol model abstracts nodes to ids; its actions are matched to the code by the heap-dump monitors, not by proof."),
- "C11": ("Coq proof: copy = fold of insert over the ascending visit yields the same sorted list (uses C06+C01 lemmas); differential on sources (writable, snapshot, re-opened) x flushEvery values; destination decoded by the Coq decoder (each key once)",
-         "Equivalence follows from the refinement lemmas; destination contents, re-open and compactness checked per case.",
+ "C11": ("Coq proof: copy = fold of insert over the ascending visit yields the same sorted list, shape and aggregates (uses C06+C01 lemmas); on bytes, CopyTo as the history of calls it makes on the destination store (CopyRun: all calls succeed, the destination holds exactly the source's collections and items, nothing left unflushed, the byte-level store agrees); flush schedule and structure regenerated from the source; tie: the destination file of every copy compared byte for byte with the model's, sources (writable, snapshot, re-opened) x flushEvery values, destination decoded by the Coq decoder (each key once), one transient destination fault at every call position",
+         "Theorems for every source meeting src_ok and every flushEvery; destination contents, re-open, compactness and file bytes checked per case.",
          "CopyTo's interleaved EvictSomeItems/Flush calls are exercised on the implementation."),
  "C12": ("Coq proof: collection-map laws of Store.step (new empty, existing keeps items, remove+create empty, names sorted, others untouched) + differential on histories with flushes and re-opens",
          "Laws proved on the store model; names and full contents compared after every step and after re-open of the image.",
